@@ -132,6 +132,9 @@ func (e *vestEnv) c07CheckFamily(c *fw.Case, f *c07Family, now time.Time) {
 	times := []time.Time{now.Add(time.Second), end.Add(-time.Second), end, end.Add(time.Second)}
 	if end.After(now) {
 		span := end.Sub(now)
+		if span > 200*365*24*time.Hour {
+			span = 200 * 365 * 24 * time.Hour
+		}
 		for i := 0; i < 4; i++ {
 			times = append(times, now.Add(time.Duration(c.R.Int63n(int64(span)+1))))
 		}
